@@ -1438,8 +1438,12 @@ def m_truncate(px, st, fr, ev):
     old = px._read(st, a[1], a[2])
     n = ev["args"][1]
     new = ("truncated", old, n)
-    if isinstance(old, tuple) and old[0] == "appended" and len_term(old[1]) == n:
-        new = old[1]
+    cur = old
+    while isinstance(cur, tuple) and cur[0] == "appended":
+        if len_term(cur[1]) == n:
+            new = cur[1]        # n is the length before this (and any later) append: they are undone
+            break
+        cur = cur[1]
 
     def do(s):
         px._write(s, a[1], a[2], new)
